@@ -453,6 +453,10 @@ pub fn sel(s: &Sel) -> SelectStatement {
     if let Some(w) = &s.with {
         q.with_cte(with_clause(w));
     }
+    // the documented way of finishing a builder chain: take() instead of keeping the builder
+    if route(3) == 0 {
+        return q.take();
+    }
     q
 }
 
@@ -599,7 +603,10 @@ pub fn ins(s: &Ins) -> InsertStatement {
 
 pub fn upd(s: &Upd) -> UpdateStatement {
     let mut q = Query::update();
-    q.table(a(&s.table));
+    match &s.alias {
+        Some(al) => q.table(TableRef::TableAlias(a(&s.table).into_iden(), a(al).into_iden())),
+        None => q.table(a(&s.table)),
+    };
     if route(2) == 0 {
         q.values(s.sets.iter().map(|(c, e)| (a(c), e.build())));
     } else {
@@ -628,7 +635,10 @@ pub fn upd(s: &Upd) -> UpdateStatement {
 
 pub fn del(s: &Del) -> DeleteStatement {
     let mut q = Query::delete();
-    q.from_table(a(&s.table));
+    match &s.alias {
+        Some(al) => q.from_table(TableRef::TableAlias(a(&s.table).into_iden(), a(al).into_iden())),
+        None => q.from_table(a(&s.table)),
+    };
     add_wheres(&mut q, &s.wheres);
     for o in &s.orders {
         add_order(&mut q, o);
